@@ -483,4 +483,25 @@ func TestDemoF18DeafClientOnStraySession(t *testing.T) {
 	}
 }
 
+// F13 (open finding): the TLS upgrade ignores cancellation and falls back to a 30 s deadline.
+func TestDemoF13HandshakeIgnoresCancel(t *testing.T) {
+	addr := demoAddr(55413)
+	tc := make(chan Transport, 1)
+	l := createTCPListenerTLS(t, addr, tc)
+	defer silentClose(l)
+	conn, err := net.Dial("tcp", addr.String()) // a silent peer: never answers the handshake
+	if err != nil {
+		t.Fatal(err)
+	}
+	defer conn.Close()
+	server := receiveTransport(t, tc)
+	ctx, cancel := context.WithCancel(context.Background()) // cancellation only, no deadline
+	time.AfterFunc(100*time.Millisecond, cancel)
+	start := time.Now()
+	_ = server.SetEncryption(ctx, SessionEncryptionTLS)
+	if d := time.Since(start); d > 6*time.Second {
+		t.Errorf("F13: SetEncryption returned %v after its context was cancelled (documented poll interval: 5s)", d.Round(time.Second))
+	}
+}
+
 var _ = tls.Config{}
